@@ -53,6 +53,7 @@ template <size_t K> struct ROp {
         else if (op == "gcd") gcd(P(0), P(1), P(2));
         else if (op == "inv_mod") inv_mod(P(0), P(1), P(2));
         else if (op == "exp_mod") exp_mod(P(0), P(1), P(2), P(3));
+        else if (op == "bezout_mod") bezout_mod(P(0), P(1), P(2), P(3));      // (x, y, c, d)
         else if (op == "left_shift") left_shift(P(0), P(1), (unsigned int) s);
         else if (op == "right_shift") right_shift(P(0), P(1), (unsigned int) s);
         else if (op == "left_shift_1") left_shift_1(P(0), P(1));
